@@ -93,14 +93,17 @@ WrapBlocks == 1..3
 
 (* C04 family Sigops: the input side of the signature-operation budget (BIP 141).  Tx 222 creates P2SH     *)
 (* outputs whose redeem script holds 190 OP_CHECKSIG (cost 4 x 190 when spent) and P2WSH outputs whose       *)
-(* witness script holds 190 / 191 (cost 190 / 191); the spenders fill the rest of the 80000 budget with a    *)
+(* witness script holds 190 / 191 (cost 190 / 191), also wrapped in P2SH (type 11); the spenders fill the rest of the 80000 budget with a    *)
 (* type-7 output, landing exactly on the limit (valid) or 4 / 1 above it (invalid).                          *)
 SigopsTx ==
-    222 :> T(<<In(16, 1)>>, <<O(10, 0, 190, 9), O(10, 0, 190, 9), O(10, 0, 190, 10), O(10, 0, 190, 10), O(9, 99900000, 191, 10)>>) @@
+    222 :> T(<<In(16, 1)>>, <<O(10, 0, 190, 9), O(10, 0, 190, 9), O(10, 0, 190, 10), O(10, 0, 190, 10), O(4, 99900000, 191, 10),
+                              O(3, 0, 190, 11), O(2, 0, 191, 11)>>) @@
     223 :> TS(<<In(222, 1), In(222, 2)>>, <<O(19, 99900000, 1, 1), [amt |-> Zero, addr |-> 19620, st |-> 7]>>, 78480) @@   \* 1520 + 78480
     224 :> TS(<<In(222, 1), In(222, 2)>>, <<O(19, 99900000, 1, 1), [amt |-> Zero, addr |-> 19621, st |-> 7]>>, 78484) @@   \* 80004
     225 :> TS(<<In(222, 3), In(222, 4)>>, <<O(19, 99900000, 1, 1), [amt |-> Zero, addr |-> 19905, st |-> 7]>>, 79620) @@   \* 380 + 79620
-    226 :> TS(<<In(222, 3), In(222, 5)>>, <<O(19, 99800000, 1, 1), [amt |-> Zero, addr |-> 19905, st |-> 7]>>, 79620)      \* 381 + 79620
+    226 :> TS(<<In(222, 3), In(222, 5)>>, <<O(14, 99800000, 1, 1), [amt |-> Zero, addr |-> 19905, st |-> 7]>>, 79620) @@   \* 381 + 79620
+    228 :> TS(<<In(222, 3), In(222, 6)>>, <<O(12, 99900000, 1, 1), [amt |-> Zero, addr |-> 19905, st |-> 7]>>, 79620) @@   \* P2SH-wrapped witness script: 380 + 79620
+    229 :> TS(<<In(222, 3), In(222, 7)>>, <<O(11, 99900000, 1, 1), [amt |-> Zero, addr |-> 19905, st |-> 7]>>, 79620)      \* 381 + 79620
 SigopsBlk ==
      1 :> B(0, <<222>>, 50, FEE) @@
      2 :> B(1, <<223>>, 50, FEE) @@
@@ -108,8 +111,10 @@ SigopsBlk ==
      4 :> B(1, <<225>>, 50, FEE) @@
      5 :> B(1, <<226>>, 50, FEE) @@
      6 :> B(0, <<222, 224>>, 50, 2 * FEE) @@
-     7 :> B(0, <<222, 223>>, 50, 2 * FEE)
-SigopsBlocks == 1..7
+     7 :> B(0, <<222, 223>>, 50, 2 * FEE) @@
+     8 :> B(1, <<228>>, 50, FEE) @@
+     9 :> B(1, <<229>>, 50, FEE)
+SigopsBlocks == 1..9
 
 ----------------------------------------------------------------------------
 (* C06 family A: A1-A2-A3 against B1-B2-B3-B4 where B3 is invalid only when connected,   *)
